@@ -31,7 +31,34 @@ type scriptConn struct {
 	fetchOff []int64
 	delay    time.Duration // sleep before answering a fetch (lets the read deadline pass)
 	closed   bool
+	hdr      *hdrOpt // the other fields of the partition header (nil: last stable offset = hwm, log start 0, no aborted list)
+	// multi-fetch mode (the io.Reader style family): every fetch is answered from the layout
+	layout   fetchfake.Layout
+	enc      *fetchfake.Encoder
+	sent     [][]byte // the message set sent for each fetch
 }
+
+// hdrOpt: the fields of a v4+ fetch response partition header the client must NOT take for the
+// high watermark.
+type hdrOpt struct {
+	lso, logStart int64
+	aborted       [][2]int64 // producer id, first offset
+}
+
+func (h *hdrOpt) String() string {
+	ab := "."
+	if len(h.aborted) > 0 {
+		var p []string
+		for _, a := range h.aborted {
+			p = append(p, kvfmt.I(a[0])+":"+kvfmt.I(a[1]))
+		}
+		ab = strings.Join(p, "+")
+	}
+	return fmt.Sprintf(" lso=%s ls=%s ab=%s", kvfmt.I(h.lso), kvfmt.I(h.logStart), ab)
+}
+
+// curHdr: header fields used by emitL1 / oneFetch for the cases being generated.
+var curHdr *hdrOpt
 
 type fakeAddr struct{}
 
@@ -132,20 +159,40 @@ func (c *scriptConn) answer(req []byte) {
 		body.Write(be(4, 0)) // partition
 		body.Write(be(2, 0)) // error
 		body.Write(be(8, c.hwm))
+		lso, ls := c.hwm, int64(0)
+		var aborted [][2]int64
+		if c.hdr != nil {
+			lso, ls, aborted = c.hdr.lso, c.hdr.logStart, c.hdr.aborted
+		}
 		if ver >= 4 {
-			body.Write(be(8, c.hwm)) // last stable offset
+			body.Write(be(8, lso)) // last stable offset
 		}
 		if ver >= 5 {
-			body.Write(be(8, 0)) // log start offset
+			body.Write(be(8, ls)) // log start offset
 		}
 		if ver >= 4 {
-			body.Write(be(4, -1)) // aborted transactions
+			if aborted == nil {
+				body.Write(be(4, -1)) // aborted transactions: null
+			} else {
+				body.Write(be(4, int64(len(aborted))))
+				for _, a := range aborted {
+					body.Write(be(8, a[0]))
+					body.Write(be(8, a[1]))
+				}
+			}
 		}
-		body.Write(be(4, int64(c.declared)))
-		c.out.Write(be(4, int64(4+body.Len()+c.declared)))
+		set, declared := c.set, c.declared
+		if c.layout != nil {
+			// multi-fetch mode: the batches at the requested offset
+			set, _ = c.enc.Encode(c.layout.FromOffset(c.fetchOff[len(c.fetchOff)-1]))
+			declared = len(set)
+			c.sent = append(c.sent, set)
+		}
+		body.Write(be(4, int64(declared)))
+		c.out.Write(be(4, int64(4+body.Len()+declared)))
 		c.out.Write(corr)
 		c.out.Write(body.Bytes())
-		c.out.Write(c.set)
+		c.out.Write(set)
 		return
 	default:
 		panic(fmt.Sprintf("scriptConn: unexpected api key %d", key))
@@ -227,7 +274,7 @@ func oneFetch(ver int16, off, hwm int64, declared int, set []byte, late bool) (r
 }
 
 func oneFetchUnguarded(ver int16, off, hwm int64, declared int, set []byte, late bool) (res string, reqOff int64) {
-	sc := &scriptConn{fetchVer: ver, hwm: hwm, declared: declared, set: set}
+	sc := &scriptConn{fetchVer: ver, hwm: hwm, declared: declared, set: set, hdr: curHdr}
 	defer func() {
 		if p := recover(); p != nil {
 			res = "panic"
@@ -306,6 +353,9 @@ func emitL1(ver int16, off, hwm int64, declared int, set []byte, late bool, blob
 	if reqOff != off && res != "panic" && res != "SEEKERR" {
 		res = fmt.Sprintf("REQOFF=%d;", reqOff) + res
 	}
+	if curHdr != nil {
+		extra = curHdr.String() + extra
+	}
 	args := fmt.Sprintf("v=%d off=%s hwm=%s declared=%s late=%s blobs=%s bytes=%s%s", ver, kvfmt.I(off), kvfmt.I(hwm),
 		kvfmt.I(int64(declared)), kvfmt.Bool(late), fetchfake.BlobsString(blobs), kvfmt.Bytes(set), extra)
 	emit("l1", args, res, strings.Join(feats, ","))
@@ -348,6 +398,28 @@ func runL1(r *rand.Rand, n int) {
 		ver := vers[r.Intn(3)]
 		hwm := endOff + int64(r.Intn(2))
 		feats := append(layoutFeats(sub), fmt.Sprintf("fv=%d", ver))
+		curHdr = nil
+		if ver >= 5 && r.Intn(3) == 0 {
+			// an open transaction: the last stable offset is below the high watermark; half of the time
+			// it is exactly the fetch offset.  Log start offset and aborted transactions vary too.
+			h := &hdrOpt{lso: off, logStart: int64(r.Intn(int(off) + 1))}
+			if r.Intn(2) == 0 {
+				h.lso = l[0].Base + int64(r.Intn(int(hwm-l[0].Base)+1))
+			}
+			if h.lso == off {
+				feats = append(feats, "lso=off")
+			}
+			if h.lso < hwm {
+				feats = append(feats, "lso<hwm")
+			}
+			for i := r.Intn(3); i > 0; i-- {
+				h.aborted = append(h.aborted, [2]int64{int64(1000 + r.Intn(50)), l[0].Base + int64(r.Intn(int(hwm-l[0].Base)+1))})
+			}
+			if len(h.aborted) > 0 {
+				feats = append(feats, "aborted-list")
+			}
+			curHdr = h
+		}
 		if o.Unordered {
 			feats = append(feats, "unordered-formats")
 		}
@@ -392,6 +464,7 @@ func runL1(r *rand.Rand, n int) {
 		if r.Intn(4) == 0 {
 			emitL1(ver, off, off, len(all), all, false, enc.Blobs, append(append([]string{}, feats...), "hwm=off"), logArg)
 		}
+		curHdr = nil
 	}
 }
 
@@ -494,6 +567,16 @@ func replayL1(cs string) {
 	}
 	var ver int64
 	fmt.Sscanf(f["v"], "%d", &ver)
+	if f["lso"] != "" {
+		h := &hdrOpt{lso: num(f["lso"]), logStart: num(f["ls"])}
+		if f["ab"] != "." && f["ab"] != "" {
+			for _, a := range strings.Split(f["ab"], "+") {
+				p := strings.Split(a, ":")
+				h.aborted = append(h.aborted, [2]int64{num(p[0]), num(p[1])})
+			}
+		}
+		curHdr = h
+	}
 	res, req := oneFetch(int16(ver), num(f["off"]), num(f["hwm"]), int(num(f["declared"])), set, f["late"] == "1")
 	fmt.Fprintf(out, "fetch issued at %d -> %s\n", req, res)
 }
